@@ -579,6 +579,7 @@ static void run_obj(Choices &c, Ctx &ctx)
 	if (many)
 		np = 200 + (size_t)c.range(0, 1900);
 	int blocks = 2 + (int)c.pickn(5);
+	bool f_high = false;
 	for (size_t i = 0; i < np; i++)
 	{
 		std::string k;
@@ -600,8 +601,17 @@ static void run_obj(Choices &c, Ctx &ctx)
 			break;
 		}
 		}
+		if (c.coin(25) && !k.empty())
+		{
+			// bytes >= 0x80 anywhere in the name (signed/unsigned char handling of the hash functions)
+			for (size_t j = 0, nj = 1 + c.pickn(3); j < nj; j++)
+				k.insert(c.pickn(k.size() + 1), 1, (char)c.range(0x80, 0xff));
+			f_high = true;
+		}
 		ob.pool.push_back(k);
 	}
+	if (f_high)
+		ctx.label("member_names_with_high_bytes");
 	size_t nops = many ? np + (size_t)c.range(0, 600) : 1 + c.len(60);
 	if (!many && c.coin(25))
 		nops += 30; // enough inserts to cross the first growth threshold even in small-size cases
